@@ -25,6 +25,8 @@ Definition dump_long (x : Z) : list Z :=
 Section Dumps.
   Variable repr_float : Z -> list Z.
   Variable has_pos : bool.          (* the code objects written have co_posonlyargcount (Code38, Code310): dump_code3 writes it *)
+  Variable int_i : bool.            (* false: xdis.marsh.dumps on a Python 3 host (every int is written as 'l');
+                                       true: CPython's own w_object (TYPE_INT 'i' when the value fits in 32 bits, else 'l') *)
 
   Definition dump_float_text (b : Z) : list Z := let s := repr_float b in zlen s :: s.
 
@@ -33,7 +35,7 @@ Section Dumps.
     match v with
     | PNull => [48]
     | PNone => [78] | PTrue => [84] | PFalse => [70] | PEllipsis => [46] | PStopIter => [83]
-    | PInt z => dump_long z
+    | PInt z => if int_i && (-2147483648 <=? z) && (z <? 2147483648) then 105 :: w_long z else dump_long z
     | PFloat b => 102 :: dump_float_text b
     | PFloatText s => 102 :: zlen s :: s
     | PComplex (PFloat a) (PFloat b) => 120 :: dump_float_text a ++ dump_float_text b
